@@ -16,7 +16,7 @@ fn main() {
             mvcc::replay(ctx, &m, p);
             return;
         }
-        let depth = std::env::var("VERIF_DEPTH").ok().and_then(|s| s.parse().ok()).unwrap_or(ctx.tier.pick(6, 8));
+        let depth = std::env::var("VERIF_DEPTH").ok().and_then(|s| s.parse().ok()).unwrap_or(ctx.tier.pick(7, 8));
         let stats = hx::explore(&m, depth, 30_000_000, |v| {
             ctx.violation(&v.sig, v.msg, json!({"history": hist_json(&v.history)}));
         });
